@@ -15,6 +15,7 @@
 //!     ev = i<stream>.<rid> request frame (rid = marker, or -k for handshake frames)
 //!          k<stream>.<rid> keepalive OPTIONS
 //!          o<hex> bytes the mock wrote | S stalled | F mock FIN | R mock RST | X client closed
+//!          (k, S, F, R, X carry `@<ms since the requests were launched>`, for diagnosis only)
 use scylla::client::execution_profile::ExecutionProfile;
 use scylla::client::session::Session;
 use scylla::client::session_builder::SessionBuilder;
@@ -169,13 +170,14 @@ async fn run_case(c: Case) -> String {
     spec.options.tablets_ext = false;
     let cluster = match MockCluster::start(spec).await {
         Ok(cl) => cl,
-        Err(e) => return format!("error start-cluster {}", e),
+        Err(e) => return format!("setup-error start-cluster {}", e),
     };
     let profile = ExecutionProfile::builder().request_timeout(None).build();
     let session = match tokio::time::timeout(
         Duration::from_secs(20),
         SessionBuilder::new()
             .known_node_addr(cluster.contact_point(0))
+            .local_ip_address(Some(cluster.client_ip()))
             .connection_timeout(Duration::from_secs(5))
             .keepalive_interval(Duration::from_millis(KA_INTERVAL_MS))
             .keepalive_timeout(Duration::from_millis(KA_TIMEOUT_MS))
@@ -185,8 +187,8 @@ async fn run_case(c: Case) -> String {
     .await
     {
         Ok(Ok(s)) => Arc::new(s),
-        Ok(Err(e)) => return format!("error session {:?}", e),
-        Err(_) => return "error session-timeout".into(),
+        Ok(Err(e)) => return format!("setup-error session {:?}", e),
+        Err(_) => return "setup-error session-timeout".into(),
     };
     // wait for the pools: per node max(1, shards) connections + 1 control connection
     let want = c.nodes * (c.shards.max(1) as usize) + 1;
@@ -202,7 +204,7 @@ async fn run_case(c: Case) -> String {
                 p.set_is_idempotent(c.idem);
                 Some(p)
             }
-            Err(e) => return format!("error prepare {:?}", e),
+            Err(e) => return format!("setup-error prepare {:?}", e),
         }
     } else {
         None
@@ -256,6 +258,7 @@ async fn run_case(c: Case) -> String {
 
     // ---- N requests in flight -------------------------------------------------------------
     let t0 = Instant::now();
+    let t0_ns = cluster.now_ns();
     let mut handles = Vec::new();
     for i in 0..c.n {
         let s = session.clone();
@@ -323,8 +326,9 @@ async fn run_case(c: Case) -> String {
         }
     }
     let trace = cluster.drain_trace();
-    drop(session);
+    // the mock resets every connection first: no TIME_WAIT sockets are left behind
     cluster.shutdown();
+    drop(session);
 
     // ---- encode the observation ----------------------------------------------------------
     let px = {
@@ -365,23 +369,25 @@ async fn run_case(c: Case) -> String {
                         r
                     }
                 };
-                cn.2.push(format!("{}{}.{}", if ka { "k" } else { "i" }, stream, rid));
+                let at = if ka { format!("@{}", (e.t_ns.saturating_sub(t0_ns)) / 1_000_000) } else { String::new() };
+                cn.2.push(format!("{}{}.{}{}", if ka { "k" } else { "i" }, stream, rid, at));
             }
             Ev::Out { version, flags, stream, opcode, body, written } => {
                 let enc = Frame { version: *version, flags: *flags, stream: *stream, opcode: *opcode, body: body.clone() }.encode();
                 cn.2.push(format!("o{}", hex_bytes(&enc[..(*written).min(enc.len())])));
             }
             Ev::RawOut { bytes } => cn.2.push(format!("o{}", hex_bytes(bytes))),
-            Ev::Stalled => cn.2.push("S".into()),
-            Ev::Close { by } => cn.2.push(
+            Ev::Stalled => cn.2.push(format!("S@{}", (e.t_ns.saturating_sub(t0_ns)) / 1_000_000)),
+            Ev::Close { by } => cn.2.push(format!(
+                "{}@{}",
                 match by {
                     CloseBy::Client => "X",
                     CloseBy::MockFin => "F",
                     CloseBy::MockRst => "R",
                     CloseBy::Shutdown => "X",
-                }
-                .into(),
-            ),
+                },
+                (e.t_ns.saturating_sub(t0_ns)) / 1_000_000
+            )),
         }
     }
     let conns_s: Vec<String> = conns.iter().map(|c| format!("{}.{}:{}", c.0, c.1, if c.2.is_empty() { "-".to_string() } else { c.2.join(",") })).collect();
@@ -508,11 +514,23 @@ fn main() {
         use futures::stream::{self, StreamExt};
         stream::iter(cases.into_iter().map(|c| async move {
             let line = c.line();
-            let h = tokio::spawn(run_case(c));
-            let out = match h.await {
-                Ok(o) => o,
-                Err(e) => format!("error panic {}", e),
-            };
+            // a case whose SETUP (cluster start, session creation, prepare: before any fault is
+            // injected) fails is retried; if the environment stays unusable it is reported as skipped
+            let mut out = String::new();
+            for attempt in 0..5u64 {
+                let h = tokio::spawn(run_case(c.clone()));
+                out = match h.await {
+                    Ok(o) => o,
+                    Err(e) => format!("error panic {}", e),
+                };
+                if !out.starts_with("setup-error") {
+                    break;
+                }
+                tokio::time::sleep(Duration::from_millis(300 * (attempt + 1))).await;
+            }
+            if let Some(r) = out.strip_prefix("setup-error") {
+                out = format!("skip{}", r.replace(' ', "_").chars().take(120).collect::<String>());
+            }
             (line, out)
         }))
         .buffered(par)
